@@ -252,7 +252,7 @@ class Check:
                     discharged += 1
                     backends[r["backend"]] = backends.get(r["backend"], 0) + 1
                 else:
-                    self.notes.append("hint not proved (%s): %s" % (r["status"], name))
+                    self.notes.append("hint not proved (%s): %s %s" % (r["status"], name, str(r.get("log"))[:300]))
                     n_expected -= 1      # the parent carries the verdict
                 continue
             hints = m.get("hints")
